@@ -77,6 +77,13 @@ type Net struct {
 	OnResp  func(ri *ReqInfo, body []byte) // observer of every response body (correlation id onwards)
 	blocked bool           // refuse all new dials (unreachable brokers)
 	conns   map[*conn]struct{}
+	lastAt  time.Time
+	sameAt  int
+	// Spin is set when more than SpinLimit requests were written at one virtual instant:
+	// the client is busy-looping without any time passing. New requests then fail.
+	Spin      bool
+	SpinKey   int16
+	SpinLimit int
 }
 
 // NewNet returns a fault net with no rules.
@@ -169,7 +176,7 @@ func (n *Net) Listen(network, address string) (net.Listener, error) {
 // DialContext is passed to kgo.Dialer.
 func (n *Net) DialContext(ctx context.Context, network, address string) (net.Conn, error) {
 	n.mu.Lock()
-	if n.blocked {
+	if n.blocked || n.Spin {
 		n.mu.Unlock()
 		return nil, errors.New("faultnet: network unreachable")
 	}
@@ -213,6 +220,23 @@ func (c *conn) Close() error {
 func (n *Net) decide(ri *ReqInfo) Rule {
 	n.mu.Lock()
 	defer n.mu.Unlock()
+	if now := time.Now(); now.Equal(n.lastAt) {
+		n.sameAt++
+		lim := n.SpinLimit
+		if lim == 0 {
+			lim = 20000
+		}
+		if n.sameAt > lim && !n.Spin {
+			n.Spin, n.SpinKey = true, ri.Key
+		}
+	} else {
+		n.lastAt, n.sameAt = now, 0
+	}
+	if n.Spin {
+		ri.Act = KillBefore
+		n.reqs = append(n.reqs, ri)
+		return Rule{Act: KillBefore}
+	}
 	cnt := n.counts[ri.Key]
 	n.counts[ri.Key] = cnt + 1
 	anyCnt := n.counts[-1]
@@ -335,3 +359,6 @@ func (c *conn) Read(p []byte) (int, error) {
 	c.rbuf = c.rbuf[k:]
 	return k, nil
 }
+
+// Spinning reports whether the spin watchdog fired, and on which request key.
+func (n *Net) Spinning() (bool, int16) { n.mu.Lock(); defer n.mu.Unlock(); return n.Spin, n.SpinKey }
